@@ -664,6 +664,18 @@ func genC16(g *Rng, tier string, emit func(Op)) {
 			emit(terminatesOp(pl.ln, 1+g.intn(20), fmt.Sprintf("keygen-terminates-%d", pl.ln)))
 		}
 	}
+	// a key pair whose revocation keys are renewed (the old ones removed, new ones generated for
+	// the same objects): what the objects hold in memory is what they serialise
+	for i := 0; i < 2; i++ {
+		if k, ok := c16GenerateDeadline(128+uint(2*i), 2+i); ok {
+			k.sk.ECDSAString, k.pk.ECDSAString = "", ""
+			if err := gabikeys.GenerateRevocationKeypair(k.sk, k.pk); err != nil {
+				emit(Op{"op": "recorded", "class": "revocation-keys-renewed", "label": "renewed", "nomodel": true, "result": "refused: " + err.Error()})
+			} else {
+				emit(keypairOp(k.sk, k.pk, k.ln, k.nattr, 0, "revocation-keys-renewed").with("fkey", "C16/revocation-keys-renewed"))
+			}
+		}
+	}
 	// the same on machines with one, two or three processors
 	for _, procs := range []int{1, 2, 3} {
 		for _, ln := range []uint{128, 160}[:3-min(procs, 2)] {
